@@ -121,9 +121,10 @@ def ghost(G, n_inputs, has_obs=None, clim=None, obs_range=False, other=False, pr
                 gh.raw[(i, kk)] = vv
                 gh.raw0[(i, kk)] = vv.copy() if vv is not None else None
         si = StubInput("in%d" % i, obs, fcst, oth, pr)
+        # the input's own coordinate vectors (any order, unless -T needs them ascending)
+        si.leadtimes = G.array("leadtimes%d" % i, (L,), kinds=(FIN,), grid=[0.0, 1.0, 2.0, 3.0, 6.0])
+        si.times = G.array("times%d" % i, (T,), kinds=(FIN,), grid=[0.0, 3600.0, 7200.0, 21600.0])
         if agg:
-            si.leadtimes = G.array("leadtimes%d" % i, (L,), kinds=(FIN,), grid=[0.0, 1.0, 2.0, 3.0, 6.0])
-            si.times = G.array("times%d" % i, (T,), kinds=(FIN,), grid=[0.0, 3600.0, 7200.0, 21600.0])
             G.assume_sorted(si.leadtimes)
             G.assume_sorted(si.times)
         inputs.append(si)
